@@ -8,6 +8,7 @@ import os
 import random
 import re
 
+import txaio
 from harness import fw, wsx
 from harness.common import driver_in, driver_out
 from autobahn.websocket.protocol import WebSocketProtocol as WSP
@@ -152,17 +153,30 @@ def run_server(inp, rng):
             for seg in ("whole", rng.choice(["bytes", "random"])):
                 data, key = build_request(r, rng)
 
-                def onconnect(proto, request, r=r):
+                # every documented way an application may answer in onConnect: a subprotocol / None or a (subprotocol, headers)
+                # pair, at once or through a pending result
+                form = rng.choice(["plain", "plain", "tuple", "pending", "pending-tuple"])
+                given_hdr = form in ("tuple", "pending-tuple")
+
+                def onconnect(proto, request, r=r, form=form):
                     oc = r["onconn"]
-                    if oc == "ok-listed":
-                        return "chat"
-                    if oc == "unlisted":
-                        return "mqtt"
                     if oc == "deny":
                         raise ConnectionDeny(403, "denied by test")
                     if oc == "raises":
                         raise RuntimeError("boom")
-                    return None
+                    sub = {"ok-listed": "chat", "unlisted": "mqtt"}.get(oc)
+                    hd = {"X-Verif-Custom": "v-%s" % form}
+                    if form == "plain":
+                        return sub
+                    if form == "tuple":
+                        return (sub, hd)
+                    f = txaio.create_future()
+                    fire = lambda: txaio.resolve(f, (sub, hd) if form == "pending-tuple" else sub)      # noqa: E731
+                    if fw.NAME == "aio":
+                        txaio.config.loop.call_soon(fire)
+                    else:
+                        txaio.call_later(0, fire)
+                    return f
                 opts = dict(webStatus=cfg["webStatus"], allowNullOrigin=cfg["allowNull"])
                 if cfg["origins"] == "list":
                     opts["allowedOrigins"] = ["http://good.example.com:80"]
@@ -192,7 +206,8 @@ def run_server(inp, rng):
                 within = (exts == b"") or (offered in ("ok-deflate",) and exts.startswith(b"permessage-deflate"))
                 obs = dict(opened=p.state == WSP.STATE_OPEN, status=status, acceptOk=hdr.get(b"sec-websocket-accept", [b""])[0] == want,
                            proto="" if sp == b"" else ("listed" if sp == b"chat" and r["protos"] == "ok-list" else "other"),
-                           extsWithinOffer=within, dropped=t.dropped, escaped=esc, state=wsx.STATE[p.state], late=late)
+                           extsWithinOffer=within, dropped=t.dropped, escaped=esc, state=wsx.STATE[p.state], late=late,
+                           customHdrOk=(not given_hdr) or hdr.get(b"x-verif-custom", [b""])[0] == ("v-%s" % form).encode())
                 traces.append([dict(ev="sreq", req=r, cfg=cfg, seg=seg, obs=obs)])
                 fw.reset()
     return traces
